@@ -689,3 +689,31 @@ package kcache
 @*/
 /*@ owner (*kcache.publisher).run kcache.publisher.subscriptions
 @*/
+
+/*@ neverclosed kcache._ticker.resetch kcache._ticker.stopch kcache._ticker.nextch time.Timer.C
+@*/
+
+/*@ func (*kcache._ticker).nextPeriod
+  props C13
+  note floats are modelled as reals; the conversion to time.Duration is floor (equal to Go's truncation for the non-negative values here)
+  requires (and (not (= {t} vnil)) (>= {t.period} 0) (<= 0.0 {t.fuzz}) (<= {t.fuzz} 1.0))
+  ensures [within-the-fuzz-window] (and (<= (- (to_real {t.period}) (* {t.fuzz} (to_real {t.period})) 1.0) (to_real result))
+                                       (<= (to_real result) (+ (to_real {t.period}) (* {t.fuzz} (to_real {t.period})) 1.0)))
+@*/
+
+/*@ func (*kcache._ticker).run
+  props C13 C12
+  requires [valid-t] (and (not (= {t} vnil)) (not (= {t.nextch} vnil)) (not (= {t.resetch} vnil)) (not (= {t.stopch} vnil)) (not (= {t.donech} vnil))
+        (>= {t.period} 0) (<= 0.0 {t.fuzz}) (<= {t.fuzz} 1.0))
+  requires [has-closed-nothing] (forall ((x V)) (not (select $closed x)))
+  ghost tstate : Int := 0
+  at call(NewTimer).after set tstate := 1
+  at call(Stop).after assume [timer-semantics-stop-reports-true-only-for-an-armed-timer] (=> $result (= tstate 1))
+  at call(Stop).after set tstate := (ite $result 0 tstate)
+  at call(Reset) set tstate := 1
+  at recv(C) assume [timer-semantics-a-timer-case-fires-only-when-a-value-is-or-will-be-available] (=> (not $bare) (= tstate 1))
+  at recv(C) assert [opt:bare-receive-from-the-timer-finds-a-value] (=> $bare (= tstate 1))
+  at recv(C) set tstate := 0
+  loop 1 inv [tick-pending-xor-timer-running] (and (= (not (= {nextch} vnil)) (= tstate 0)) (or (= tstate 0) (= tstate 1))
+        (or (= {nextch} vnil) (= {nextch} {t.nextch})) (not (= {timer} vnil)) (not {closed(t.donech)}))
+@*/
